@@ -13,7 +13,7 @@ import (
 
 func init() {
 	register(&Def{ID: "C12", Engine: "E1", Run: runC12,
-		Rule: "cross product: 14 unary operations + Clamp x every element type (unsupported ones must be refused everywhere) x operand layout L5 x option mode {safe, unsafe, reuse contiguous, reuse view, incr} x op-matrix shape x value sets {injective positive, signed/ties, edge (0, negatives, extremes, non-finite)}; " +
+		Rule: "cross product: 14 unary operations + Clamp x every element type (unsupported ones must be refused everywhere) x operand layout L5 x option mode {safe, unsafe, reuse contiguous, reuse view, incr} x op-matrix shape x value sets {injective positive, signed/ties, edge (0, negatives, extremes, non-finite; Clamp of NaN stays NaN)}; " +
 			"Apply(fn) with a func(T) T of every element type x layouts x modes, and wrong-signature functions (must be refused); every coordinate compared with the scalar function (exact for integer and sign/abs/neg/square/cube, tolerance for transcendental functions)",
 		Assume: []string{"as C06; complex unary functions other than Neg/Square/Cube/Inv/Sqrt/Exp/Log/Tanh are not judged", "float32 functions are compared with a 1e-5 relative tolerance against package math"}})
 }
